@@ -111,9 +111,18 @@ def generate(seed: int, tier: str) -> Dict[str, Any]:
             # twice): copies of one or two episodes, identical or with other text/vector, dealt somewhere into the list
             for _ in range(r.randint(1, 3)):
                 src = dict(r.choice(world["episodes"]))
-                if r.chance(0.5):
+                mode = r.choice(["same", "other", "same-vector"])
+                if mode == "other":
                     src["text"] = " ".join(r.sample(E.VOCAB, 2))
                     src["vec"] = "text"
+                elif mode == "same-vector" and src.get("vec", "text") == "text":
+                    # equal similarity to every query, another payload (a colleague's copy of a shared note, a re-dated version)
+                    src["vec"] = "text:" + str(src.get("text", ""))
+                    src["text"] = str(src.get("text", "")) + " (copy)"
+                    src["ts"] = E.iso_from_ms(E.T0_MS - r.choice([1000, 40 * 86_400_000])).replace("+00:00", "Z")
+                    src["importance"] = r.choice([0.0, 1.0])
+                    if r.chance(0.5):
+                        src["owner"] = r.choice(sorted(world["agents"]) + ["world"])
                 world["episodes"].insert(r.randint(0, len(world["episodes"])), src)
         raw = E.valid_cfg(rng.stream("config"), ["t2"], p=0.5)
         raw.setdefault("t2", {}).setdefault("sim_threshold", r.choice([-1.0, -0.2, 0.0]))
